@@ -6,8 +6,12 @@ package c02
 // through the real BeginBlock / DeliverTx / EndBlock / Commit.  A transaction is
 // (extension option, signer + key kind, message trees):
 //
-//	eth    MsgEthereumTx: plain value transfer of 1 unibi signed by Ethereum account `from`
-//	       (nonce, gas limit, optional tampered signature)
+//	eth    MsgEthereumTx signed by Ethereum account `from` (nonce, gas limit, gas price / fee cap + tip, value,
+//	       optional tampered signature); `prog` says what it asks of the EVM: "" a plain transfer to an account
+//	       without code, t-data the same with calldata, c-* contract creations (init code that stops / REVERTs /
+//	       hits an invalid opcode / deploys code), k-* calls of contracts (deployed once per chain) that stop /
+//	       REVERT / abort / read storage.  Whether the execution succeeds, fails for lack of funds for the value
+//	       BEFORE the EVM touches the nonce, reverts or runs out of gas depends on gas limit, value and balance.
 //	send   bank MsgSend{from}
 //	grant  authz MsgGrant{granter, grantee, GenericAuthorization(type)}   type ∈ eth|exec|send|wasm|gov
 //	exec   authz MsgExec{grantee, children}
@@ -15,13 +19,14 @@ package c02
 //	gov    gov MsgSubmitProposal{proposer, children}
 //
 // Actors: 0..2 Cosmos key accounts (secp256k1), 10 the reflect contract (owner = 0), 11 the gov module
-// account, 20..22 Ethereum accounts (eth_secp256k1 keys; the addresses MsgEthereumTx signers recover to).
+// account, 20..23 Ethereum accounts (eth_secp256k1 keys; the addresses MsgEthereumTx signers recover to; 23 holds
+// only 400000 unibi, so that a gas prepayment decides whether it can still pay a value).
 // key kind "eth" signs the COSMOS transaction with an Ethereum account's eth_secp256k1 key (probe of the
 // hypothesis that the Cosmos signature path rejects such keys).
 //
 // Observables per transaction: accepted?, the pre-order indices of the eth leaves whose handler ran
-// (EventEthereumTx carrying their hash), and for every Ethereum account its sequence and balance deltas,
-// plus the fee-collector delta.
+// (EventEthereumTx carrying their hash) with the gas used / VM error they report, and for every Ethereum account
+// its sequence and balance deltas on the committed state, plus the fee-collector delta.
 
 import (
 	"encoding/base64"
@@ -49,6 +54,7 @@ import (
 	govv1 "github.com/cosmos/cosmos-sdk/x/gov/types/v1"
 	"github.com/cosmos/gogoproto/proto"
 	gethcommon "github.com/ethereum/go-ethereum/common"
+	"github.com/ethereum/go-ethereum/crypto"
 
 	"verifharness/c17/txutil"
 	. "verifharness/hx"
@@ -62,8 +68,64 @@ const (
 	idContract = 10
 	idGov      = 11
 	idEth0     = 20
-	nEth       = 3
+	nEth       = 4
+	idPoor     = 23
+	fundRich   = int64(1e15)
+	fundPoor   = int64(400_000)
 )
+
+// what an Ethereum message asks of the EVM.  exec = gas the code needs to reach its end (for a creation incl. the
+// code deposit), out = stop | revert | invalid.  The table is mirrored in tools/props/c02.py (PROGS).
+type prog struct {
+	create bool
+	data   string // hex: init code (create) or calldata
+	to     string // call target: "sink" | contract name
+	exec   int
+	out    string
+}
+
+var progs = map[string]prog{
+	"":          {to: "sink", out: "stop"},
+	"t-data":    {to: "sink", data: "00ff00ff", out: "stop"},
+	"c-stop":    {create: true, data: "00", out: "stop"},
+	"c-revert":  {create: true, data: "60006000fd", exec: 6, out: "revert"},
+	"c-invalid": {create: true, data: "fe", out: "invalid"},
+	"c-deploy":  {create: true, data: "6460006000fd6000526005601bf3", exec: 1018, out: "stop"},
+	"k-stop":    {to: "k-stop", out: "stop"},
+	"k-revert":  {to: "k-revert", exec: 6, out: "revert"},
+	"k-invalid": {to: "k-invalid", out: "invalid"},
+	"k-sload":   {to: "k-sload", data: "01", exec: 2105, out: "stop"},
+}
+
+var progNames = []string{"t-data", "c-stop", "c-revert", "c-invalid", "c-deploy", "k-stop", "k-revert", "k-invalid", "k-sload"}
+
+// runtime code of the callable contracts
+var runtimes = map[string]string{"k-stop": "00", "k-revert": "60006000fd", "k-invalid": "fe", "k-sload": "6000545000"}
+
+func hexBytes(h string) []byte {
+	h = strings.ReplaceAll(h, " ", "")
+	out := make([]byte, len(h)/2)
+	for i := range out {
+		fmt.Sscanf(h[2*i:2*i+2], "%02x", &out[i])
+	}
+	return out
+}
+
+// intrinsic gas, computed here independently of the code: 21000 (+32000) + 4 per zero byte + 16 per other byte
+func (p prog) intrinsic() int {
+	g := 21000
+	if p.create {
+		g += 32000
+	}
+	for _, b := range hexBytes(p.data) {
+		if b == 0 {
+			g += 4
+		} else {
+			g += 16
+		}
+	}
+	return g
+}
 
 type node struct {
 	K     string `json:"k"`
@@ -75,6 +137,8 @@ type node struct {
 	Price string `json:"price,omitempty"` // eth (legacy tx): gas price in wei ("" = 10^12 = 1 unibi)
 	Cap   string `json:"cap,omitempty"`   // eth (dynamic-fee tx when set): gas fee cap in wei
 	Tip   string `json:"tip,omitempty"`   // eth (dynamic-fee tx): gas tip cap in wei
+	Prog  string `json:"prog,omitempty"`  // eth: what the EVM is asked to do (see progs)
+	Val   string `json:"val,omitempty"`   // eth: value in unibi ("" = 1)
 	Bad   bool   `json:"bad,omitempty"`   // eth: tampered signature
 	As    *int   `json:"as,omitempty"`    // eth: actor whose address is written into the unsigned From field
 	G     int    `json:"g,omitempty"`
@@ -99,9 +163,15 @@ type accObs struct {
 	DBal string `json:"dbal"`
 }
 
+type execObs struct {
+	Used   uint64 `json:"used"`   // gas used as reported by EventEthereumTx
+	Failed bool   `json:"failed"` // a VM error was reported
+}
+
 type txObs struct {
-	Ok    bool     `json:"ok"`
-	Fired []int    `json:"fired"` // pre-order indices (over all eth leaves of the tx) whose handler ran
+	Ok    bool      `json:"ok"`
+	Fired []int     `json:"fired"` // pre-order indices (over all eth leaves of the tx) whose handler ran
+	Exec  []execObs `json:"exec"`  // per fired handler
 	Eth   []accObs `json:"eth"`
 	DFee  string   `json:"dfee"` // fee collector delta (unibi)
 	Log   string   `json:"-"`
@@ -115,6 +185,7 @@ type world struct {
 	gov      sdk.AccAddress
 	sink     sdk.AccAddress
 	ethSink  gethcommon.Address
+	ctrs     map[string]gethcommon.Address // callable contracts (k-*)
 	codeID   uint64
 	cases    int
 }
@@ -155,6 +226,31 @@ func newWorld(t *testing.T) *world {
 	var sr wasmtypes.MsgStoreCodeResponse
 	_ = c.App.AppCodec().Unmarshal(rsp.Data, &sr)
 	w.codeID = sr.CodeID
+	// the callable contracts: deployed by a throw-away Ethereum account through regular creation transactions
+	dep := evmtest.NewEthPrivAcc()
+	if err := c.Fund(dep.NibiruAddr, Unibi(1e12)); err != nil {
+		t.Fatal(err)
+	}
+	w.ctrs = map[string]gethcommon.Address{}
+	names := []string{"k-invalid", "k-revert", "k-sload", "k-stop"}
+	for i, name := range names {
+		rt := hexBytes(runtimes[name])
+		// PUSHn <runtime> PUSH1 0 MSTORE PUSH1 n PUSH1 32-n RETURN
+		init := append([]byte{byte(0x5f + len(rt))}, rt...)
+		init = append(init, 0x60, 0x00, 0x52, 0x60, byte(len(rt)), 0x60, byte(32-len(rt)), 0xf3)
+		msg, err := c.SignEth(dep, &evm.EvmTxArgs{Nonce: uint64(i), GasLimit: 200_000, GasPrice: big.NewInt(1_000_000_000_000), Input: init})
+		if err != nil {
+			t.Fatal(err)
+		}
+		if r := c.DeliverEth(msg); r.Code != 0 {
+			t.Fatalf("deploy %s: %s", name, r.Log)
+		}
+		addr := crypto.CreateAddress(dep.EthAddr, uint64(i))
+		if code := c.App.EvmKeeper.GetCode(c.Ctx(), gethcommon.BytesToHash(c.App.EvmKeeper.GetAccount(c.Ctx(), addr).CodeHash)); fmt.Sprintf("%x", code) != runtimes[name] {
+			t.Fatalf("deploy %s: code %x", name, code)
+		}
+		w.ctrs[name] = addr
+	}
 	c.EndBlock()
 	return w
 }
@@ -176,7 +272,11 @@ func (w *world) beginCase(t *testing.T) {
 	for i := 0; i < nEth; i++ {
 		a := evmtest.NewEthPrivAcc()
 		w.eths = append(w.eths, a)
-		if err := c.Fund(a.NibiruAddr, Unibi(1e15)); err != nil {
+		fund := fundRich
+		if idEth0+i == idPoor {
+			fund = fundPoor
+		}
+		if err := c.Fund(a.NibiruAddr, Unibi(fund)); err != nil {
 			t.Fatal(err)
 		}
 	}
@@ -224,6 +324,37 @@ type built struct {
 	gas    uint64
 }
 
+// prices of an eth node in wei per gas: the nominal one (gas price / fee cap: what the sender-balance check uses), the
+// tip (dynamic-fee txs), and the effective one, never below the base fee (what is deducted and refunded)
+func prices(n node) (nominal, tip, eff *big.Int, err error) {
+	base := big.NewInt(1_000_000_000_000)
+	if n.Cap != "" {
+		cp, ok1 := new(big.Int).SetString(n.Cap, 10)
+		tp, ok2 := new(big.Int).SetString(n.Tip, 10)
+		if !ok1 || !ok2 {
+			return nil, nil, nil, fmt.Errorf("bad cap/tip")
+		}
+		nominal, tip = cp, tp
+		eff = new(big.Int).Add(base, tp)
+		if eff.Cmp(cp) > 0 {
+			eff = new(big.Int).Set(cp)
+		}
+	} else {
+		nominal = new(big.Int).Set(base)
+		if n.Price != "" {
+			var ok bool
+			if nominal, ok = new(big.Int).SetString(n.Price, 10); !ok {
+				return nil, nil, nil, fmt.Errorf("bad price")
+			}
+		}
+		eff = new(big.Int).Set(nominal)
+	}
+	if eff.Cmp(base) < 0 {
+		eff = base
+	}
+	return nominal, tip, eff, nil
+}
+
 func (w *world) build(n node, top bool, b *built) (sdk.Msg, error) {
 	switch n.K {
 	case "eth":
@@ -231,34 +362,33 @@ func (w *world) build(n node, top bool, b *built) (sdk.Msg, error) {
 		if i < 0 || i >= nEth {
 			return nil, fmt.Errorf("eth from %d", n.From)
 		}
-		to := w.ethSink
-		args := &evm.EvmTxArgs{Nonce: uint64(n.Nonce), GasLimit: uint64(n.Gas), To: &to, Amount: big.NewInt(1_000_000_000_000)}
-		base := big.NewInt(1_000_000_000_000) // evm.BASE_FEE_WEI, written out: the harness prices independently of the code
-		var eff *big.Int
-		if n.Cap != "" {
-			cp, ok1 := new(big.Int).SetString(n.Cap, 10)
-			tip, ok2 := new(big.Int).SetString(n.Tip, 10)
-			if !ok1 || !ok2 {
-				return nil, fmt.Errorf("bad cap/tip")
-			}
-			args.GasFeeCap, args.GasTipCap = cp, tip
-			eff = new(big.Int).Add(base, tip)
-			if eff.Cmp(cp) > 0 {
-				eff = new(big.Int).Set(cp)
-			}
-		} else {
-			pr := new(big.Int).Set(base)
-			if n.Price != "" {
-				var ok bool
-				if pr, ok = new(big.Int).SetString(n.Price, 10); !ok {
-					return nil, fmt.Errorf("bad price")
-				}
-			}
-			args.GasPrice = pr
-			eff = new(big.Int).Set(pr)
+		pg, ok := progs[n.Prog]
+		if !ok {
+			return nil, fmt.Errorf("eth prog %q", n.Prog)
 		}
-		if eff.Cmp(base) < 0 {
-			eff = base
+		base := big.NewInt(1_000_000_000_000) // evm.BASE_FEE_WEI, written out: the harness prices independently of the code
+		val := big.NewInt(1)
+		if n.Val != "" {
+			if val, ok = new(big.Int).SetString(n.Val, 10); !ok || val.Sign() < 0 {
+				return nil, fmt.Errorf("bad val")
+			}
+		}
+		args := &evm.EvmTxArgs{Nonce: uint64(n.Nonce), GasLimit: uint64(n.Gas), Amount: new(big.Int).Mul(val, base), Input: hexBytes(pg.data)}
+		if !pg.create {
+			to := w.ethSink
+			if pg.to != "sink" {
+				to = w.ctrs[pg.to]
+			}
+			args.To = &to
+		}
+		nominal, tip, eff, err := prices(n)
+		if err != nil {
+			return nil, err
+		}
+		if n.Cap != "" {
+			args.GasFeeCap, args.GasTipCap = nominal, tip
+		} else {
+			args.GasPrice = nominal
 		}
 		msg, err := w.c.SignEth(w.eths[i], args)
 		if err != nil {
@@ -270,8 +400,8 @@ func (w *world) build(n node, top bool, b *built) (sdk.Msg, error) {
 			if err != nil {
 				return nil, err
 			}
-			lt, ok := d.(*evm.LegacyTx)
-			if !ok {
+			lt, isLegacy := d.(*evm.LegacyTx)
+			if !isLegacy {
 				return nil, fmt.Errorf("unexpected tx data %T", d)
 			}
 			lt.S[len(lt.S)-1] ^= 1
@@ -384,7 +514,7 @@ func (w *world) runTx(tx txIn) txObs {
 	c := w.c
 	c.BeginBlock(5 * time.Second)
 	before := w.snapshot()
-	o := txObs{Fired: []int{}, Eth: []accObs{}}
+	o := txObs{Fired: []int{}, Exec: []execObs{}, Eth: []accObs{}}
 	b := &built{fee: new(big.Int)}
 	msgs, err := w.buildAll(tx.Msgs, true, b)
 	var r abci.ResponseDeliverTx
@@ -434,16 +564,22 @@ func (w *world) runTx(tx txIn) txObs {
 	o.Ok = r.Code == 0
 	o.Log = r.Log
 	if o.Ok {
-		fired := map[string]bool{}
+		fired := map[string]execObs{}
 		for _, a := range EventAttrs(r.Events, "eth.evm.v1.EventEthereumTx") {
-			fired[strings.ToLower(strings.Trim(a["eth_hash"], `"`))] = true
+			var e execObs
+			fmt.Sscanf(strings.Trim(a["gas_used"], `"`), "%d", &e.Used)
+			e.Failed = strings.Trim(a["vm_error"], `"`) != ""
+			fired[strings.ToLower(strings.Trim(a["eth_hash"], `"`))] = e
 		}
 		for i, h := range b.hashes {
-			if fired[strings.ToLower(h)] {
+			if _, ok := fired[strings.ToLower(h)]; ok {
 				o.Fired = append(o.Fired, i)
 			}
 		}
 		sort.Ints(o.Fired)
+		for _, i := range o.Fired {
+			o.Exec = append(o.Exec, fired[strings.ToLower(b.hashes[i])])
+		}
 	}
 	after := w.snapshot()
 	for i := range w.eths {
@@ -473,7 +609,187 @@ func runCase(t *testing.T, ci caseIn, fresh bool) []txObs {
 
 type gen struct {
 	r   *Rng
-	seq map[int]int // believed sequence of every eth account (steers generation only)
+	seq map[int]int   // believed sequence of every eth account (steers generation only)
+	bal map[int]int64 // believed balance of every eth account (steers generation only)
+}
+
+func newGen(r *Rng) *gen {
+	g := &gen{r: r, seq: map[int]int{}, bal: map[int]int64{}}
+	for i := 0; i < nEth; i++ {
+		g.bal[idEth0+i] = fundRich
+	}
+	g.bal[idPoor] = fundPoor
+	return g
+}
+
+// execShape turns a plain transfer into a contract creation / contract call / transfer with calldata or a large
+// value, with a gas limit around what it needs, so that executions end in every way: success, REVERT, invalid
+// opcode, out of gas (in the code, at the code deposit), insufficient balance for the value (before the EVM
+// touches the nonce), gas limit below the intrinsic gas (the message fails as a whole)
+func (g *gen) execShape(n *node) {
+	r := g.r
+	pn := progNames[r.Intn(len(progNames))]
+	if r.Chance(1, 7) {
+		pn = ""
+	}
+	pg := progs[pn]
+	intr := pg.intrinsic()
+	n.Prog = pn
+	switch r.Pick(6, 3, 2, 3, 1) {
+	case 0:
+		n.Gas = intr + pg.exec + []int{0, 1, 1000, 40000, 150000}[r.Intn(5)]
+	case 1:
+		n.Gas = intr + pg.exec/2
+	case 2:
+		n.Gas = intr
+	case 3:
+		n.Gas = []int{60000, 100000, 200000}[r.Intn(3)]
+	default:
+		n.Gas = intr - 1 - r.Intn(2000)
+	}
+	if n.From == idPoor && int64(n.Gas) > g.bal[idPoor]/2 && g.bal[idPoor]/2 > int64(intr+pg.exec) {
+		n.Gas = intr + pg.exec + r.Intn(int(g.bal[idPoor]/2)-intr-pg.exec+1)
+	}
+}
+
+// valueShape picks the value (unibi) relative to what the sender is believed to own: nothing, little, a good part, and
+// around the two limits that matter — `room` = the largest value the sender-balance check of the ante chain lets
+// through (it prices the gas at the NOMINAL price) and `left` = what remains once the gas has been deducted (at the
+// effective price, never below the base fee).  left < value <= room: admitted, then refused by the EVM before it touches
+// the nonce.
+func (g *gen) valueShape(n *node) {
+	r := g.r
+	shape := r.Pick(3, 3, 2, 3, 3, 5, 3, 1)
+	if shape == 5 && r.Chance(3, 4) {
+		// a gas price below the base fee opens the window between the two limits
+		n.Cap, n.Tip = "", ""
+		n.Price = []string{"0", "1", "500000000000", "999999999999"}[r.Intn(4)]
+	}
+	nominal, _, eff, err := prices(*n)
+	if err != nil {
+		return
+	}
+	wei := big.NewInt(1_000_000_000_000)
+	gas := big.NewInt(int64(n.Gas))
+	pre := new(big.Int).Mul(eff, gas)
+	pre.Quo(pre, wei)
+	nom := new(big.Int).Mul(nominal, gas)
+	nom.Add(nom, big.NewInt(999_999_999_999)).Quo(nom, wei)
+	b := g.bal[n.From]
+	room, left := b-nom.Int64(), b-pre.Int64()
+	v := int64(0)
+	switch shape {
+	case 0:
+		v = 0
+	case 1:
+		v = 1
+	case 2:
+		v = 1000
+	case 3:
+		v = left / 2
+	case 4:
+		v = b / 5 * 3 // twice in one transaction: the second one cannot be paid any more
+	case 5:
+		if room > left {
+			v = left + 1 + int64(r.Intn(int(min64(room-left, 1<<30))))
+		} else {
+			v = left
+		}
+	case 6:
+		v = left - int64(r.Intn(3))
+	default:
+		v = room + 1 + int64(r.Intn(1000))
+	}
+	if v < 0 {
+		v = 0
+	}
+	n.Val = fmt.Sprintf("%d", v)
+	if v == 1 {
+		n.Val = ""
+	}
+}
+
+func min64(a, b int64) int64 {
+	if a < b {
+		return a
+	}
+	return b
+}
+
+// admit predicts (for steering only) whether the EVM ante chain admits the messages of one EVM transaction and, if
+// so, updates the believed sequences and balances with what ante handler and msg server do
+func (g *gen) admit(ms []node) bool {
+	wei := big.NewInt(1_000_000_000_000)
+	bal := map[int]int64{}
+	for k, v := range g.bal {
+		bal[k] = v
+	}
+	type pm struct {
+		n       node
+		pg      prog
+		val     int64
+		prepay  int64
+		effWei  *big.Int
+		nominal *big.Int
+	}
+	var ps []pm
+	for _, n := range ms {
+		nominal, _, eff, err := prices(n)
+		pg, ok := progs[n.Prog]
+		if err != nil || !ok {
+			return false
+		}
+		val := int64(1)
+		if n.Val != "" {
+			fmt.Sscanf(n.Val, "%d", &val)
+		}
+		f := new(big.Int).Mul(eff, big.NewInt(int64(n.Gas)))
+		ps = append(ps, pm{n, pg, val, f.Quo(f, wei).Int64(), eff, nominal})
+		// VerifyEthAcc: balance (wei) >= gas × nominal price + value, against the balance before the tx
+		cost := new(big.Int).Mul(nominal, big.NewInt(int64(n.Gas)))
+		cost.Add(cost, new(big.Int).Mul(big.NewInt(val), wei))
+		if new(big.Int).Mul(big.NewInt(g.bal[n.From]), wei).Cmp(cost) < 0 {
+			return false
+		}
+	}
+	for _, p := range ps {
+		if bal[p.n.From] < p.prepay {
+			return false
+		}
+		bal[p.n.From] -= p.prepay
+	}
+	after := map[int]int64{}
+	for k, v := range bal {
+		after[k] = v
+	}
+	failed := false
+	for _, p := range ps {
+		intr := p.pg.intrinsic()
+		if p.n.Gas < intr {
+			failed = true
+			break
+		}
+		used, ok := intr+p.pg.exec, p.pg.out == "stop"
+		switch {
+		case after[p.n.From] < p.val:
+			used, ok = intr, false
+		case p.n.Gas-intr < p.pg.exec || p.pg.out == "invalid":
+			used, ok = p.n.Gas, false
+		}
+		rf := new(big.Int).Mul(p.effWei, big.NewInt(int64(p.n.Gas-used)))
+		after[p.n.From] += rf.Quo(rf, wei).Int64()
+		if ok {
+			after[p.n.From] -= p.val
+		}
+	}
+	if failed {
+		after = bal
+	}
+	g.bal = after
+	for _, p := range ps {
+		g.seq[p.n.From]++
+	}
+	return true
 }
 
 func (g *gen) ethLeaf(from int) node {
@@ -494,18 +810,33 @@ func (g *gen) ethLeaf(from int) node {
 	}
 	if g.r.Chance(2, 5) && n.Gas == 21000 {
 		n.Gas = []int{50000, 30000, 100000, 250000}[g.r.Intn(4)] // leftover gas to refund
+		if from == idPoor && n.Gas > 100000 {
+			n.Gas = 100000
+		}
+	}
+	// what the EVM is asked to do: creations / contract calls / large values, ending in every way
+	shaped := !n.Bad && n.Gas != 20000 && (g.r.Chance(3, 5) || from == idPoor && g.r.Chance(2, 3))
+	if shaped {
+		g.execShape(&n)
 	}
 	// gas price: mostly NOT a whole number of unibi (10^12 wei) per gas; legacy or dynamic-fee
 	if !n.Bad {
 		switch g.r.Pick(5, 7, 4) {
 		case 1:
 			n.Price = []string{"1999999999999", "1000000000001", "1500000000000", "3000000000007", "12345678901234",
-				"2000000000000", "999999999999", "1000000000000"}[g.r.Intn(8)]
+				"2000000000000", "999999999999", "1000000000000", "0", "1", "500000000000"}[g.r.Intn(11)]
+			if from == idPoor && g.r.Chance(1, 2) {
+				// below the base fee: the balance check prices the gas lower than the deduction does
+				n.Price = []string{"0", "1", "500000000000", "999999999999"}[g.r.Intn(4)]
+			}
 		case 2:
 			ct := [][2]string{{"5000000000000", "1"}, {"1999999999999", "999999999999"}, {"2500000000001", "999999999999"},
 				{"1000000000000", "0"}, {"7000000000000", "2000000000003"}, {"1000000000001", "5"}}[g.r.Intn(6)]
 			n.Cap, n.Tip = ct[0], ct[1]
 		}
+	}
+	if shaped {
+		g.valueShape(&n)
 	}
 	return n
 }
@@ -577,16 +908,27 @@ func (g *gen) genCase() caseIn {
 	r := g.r
 	ci := caseIn{}
 	ntx := r.Range(3, 8)
+	var evmTxs []txIn // Ethereum transactions generated so far (their signed bytes can be delivered again by anyone)
 	for i := 0; i < ntx; i++ {
-		switch r.Pick(5, 9, 2, 2, 1) {
+		if len(evmTxs) > 0 && r.Chance(1, 7) {
+			// the very same signed bytes again
+			ci.Txs = append(ci.Txs, evmTxs[r.Intn(len(evmTxs))])
+			continue
+		}
+		switch r.Pick(12, 9, 2, 2, 1) {
 		case 0:
 			// a regular Ethereum transaction (1-3 messages) through the EVM route
 			tx := txIn{Ext: "evm", Key: "none", Signer: -1}
 			nm := r.Pick(6, 2, 1) + 1
 			local := map[int]int{}
 			allOK := true
+			prev := -1
 			for j := 0; j < nm; j++ {
 				from := idEth0 + r.Intn(nEth)
+				if prev >= 0 && r.Chance(1, 2) {
+					from = prev // an earlier message of the same sender spends what a later one counts on
+				}
+				prev = from
 				save := g.seq[from]
 				g.seq[from] += local[from]
 				l := g.ethLeaf(from)
@@ -613,11 +955,13 @@ func (g *gen) genCase() caseIn {
 				allOK = false
 			}
 			if allOK {
-				for f, k := range local {
-					g.seq[f] += k
-				}
+				g.admit(tx.Msgs)
 			}
 			ci.Txs = append(ci.Txs, tx)
+			evmTxs = append(evmTxs, tx)
+			if r.Chance(1, 6) {
+				ci.Txs = append(ci.Txs, tx) // delivered twice in a row
+			}
 		case 1:
 			// a Cosmos transaction carrying an Ethereum message somewhere in a message tree
 			signer := r.Intn(nUsers)
@@ -714,6 +1058,9 @@ func openers() []caseIn {
 	evm := func(ms ...node) txIn { return txIn{Ext: "evm", Key: "none", Signer: -1, Msgs: ms} }
 	cos := func(s int, ms ...node) txIn { return txIn{Key: "cosmos", Signer: s, Msgs: ms} }
 	big := node{K: "eth", From: 20, Nonce: 1, Gas: 50000}
+	ex2 := func(from, nonce int, prog string, gas int, val, price string) node {
+		return node{K: "eth", From: from, Nonce: nonce, Gas: gas, Prog: prog, Val: val, Price: price}
+	}
 	return []caseIn{
 		// the regular path, replay, gap, two messages n,n+1 and n,n
 		{Txs: []txIn{evm(eth(20, 0)), evm(eth(20, 0)), evm(eth(20, 5)), evm(eth(20, 1), eth(20, 2)), evm(eth(20, 3), eth(20, 3)), evm(eth(20, 3), eth(21, 0))}},
@@ -742,6 +1089,22 @@ func openers() []caseIn {
 			evm(node{K: "eth", From: 22, Nonce: 0, Gas: 250000, Cap: "5000000000000", Tip: "999999999999"}, node{K: "eth", From: 20, Nonce: 2, Gas: 50000, Price: "1000000000001"},
 				node{K: "eth", From: 21, Nonce: 1, Gas: 21000, Cap: "1999999999999", Tip: "999999999999"}),
 			evm(node{K: "eth", From: 20, Nonce: 3, Gas: 100000, Price: "999999999999"}), cos(1, ex(1, ex(1, node{K: "eth", From: 20, Nonce: 0, Gas: 100000, Price: "1999999999999"})))}},
+		// executions that fail at different points; every admitted message consumes its nonce exactly once and the same
+		// signed bytes are never admitted again.  Creation with a value by an account that can pay the value OR the
+		// gas prepayment at the base fee but not both (gas price below the base fee: the balance check prices the gas
+		// lower than the deduction does), delivered three times; REVERTing / aborting / out-of-gas creations and calls
+		{Txs: []txIn{evm(ex2(idPoor, 0, "c-stop", 100000, "150000", "0")), evm(ex2(idPoor, 0, "c-stop", 100000, "150000", "0")),
+			evm(ex2(idPoor, 1, "c-deploy", 60000, "0", "1")), evm(ex2(idPoor, 0, "c-stop", 100000, "150000", "0")),
+			evm(ex2(idPoor, 2, "k-revert", 30000, "1", "")), evm(ex2(idPoor, 1, "c-deploy", 60000, "0", "1"))}},
+		{Txs: []txIn{evm(ex2(20, 0, "c-revert", 100000, "1000", "")), evm(ex2(20, 1, "c-invalid", 60000, "0", "1999999999999")),
+			evm(ex2(20, 2, "c-deploy", 53688, "", "")), evm(ex2(20, 3, "c-deploy", 54206, "", "")), evm(ex2(20, 4, "k-sload", 22000, "0", "")),
+			evm(ex2(20, 5, "k-invalid", 50000, "1000", "")), evm(ex2(20, 6, "k-stop", 21000, "5", "")), evm(ex2(20, 7, "t-data", 21040, "0", "")),
+			evm(ex2(20, 3, "c-deploy", 54206, "", "")), evm(ex2(20, 8, "c-stop", 53003, "0", ""))}},
+		// an earlier message of the same transaction spends what a later creation / call counts on
+		{Txs: []txIn{evm(ex2(21, 0, "", 21000, "600000000000000", ""), ex2(21, 1, "c-stop", 80000, "600000000000000", "")),
+			evm(ex2(21, 0, "", 21000, "600000000000000", ""), ex2(21, 1, "c-stop", 80000, "600000000000000", "")),
+			evm(ex2(21, 2, "k-stop", 30000, "300000000000000", ""), ex2(21, 3, "k-stop", 30000, "300000000000000", ""), ex2(22, 0, "c-revert", 60000, "7", "")),
+			evm(ex2(21, 1, "c-stop", 80000, "600000000000000", ""))}},
 		// extension-option routing with the wrong content
 		{Txs: []txIn{{Ext: "evm", Key: "cosmos", Signer: 1, Msgs: []node{{K: "send", From: 1}}}, {Ext: "evm", Key: "none", Signer: -1, Msgs: []node{eth(20, 0), {K: "send", From: 1}}},
 			{Ext: "other", Key: "none", Signer: -1, Msgs: []node{eth(20, 0)}}, {Ext: "other", Key: "cosmos", Signer: 1, Msgs: []node{{K: "send", From: 1}}},
@@ -750,7 +1113,7 @@ func openers() []caseIn {
 }
 
 func TestC02(t *testing.T) {
-	cfg := LoadCfg(t, 200, 3000)
+	cfg := LoadCfg(t, 300, 4000)
 	em := NewEmitter(t, cfg.Out)
 	defer em.Close()
 	run := func(ci caseIn) {
@@ -778,7 +1141,6 @@ func TestC02(t *testing.T) {
 	}
 	rng := NewRng(cfg.Seed)
 	for i := 0; i < cfg.N; i++ {
-		g := &gen{r: rng.Fork(), seq: map[int]int{}}
-		run(g.genCase())
+		run(newGen(rng.Fork()).genCase())
 	}
 }
